@@ -47,7 +47,7 @@ GNext ==
         \/ \E l \in SnssaiLengths : x' = <<x[1], e \o <<l>> \o Zeros(l - 1)>> /\ UNCHANGED fam                \* declared length one beyond the end
   \/ fam = "rej" /\ x = <<>> /\ \E a \in 0..4, b \in 0..4, r \in {0, 3} : x' = <<RejList(a, r), RejList(b, r + 1)>> /\ UNCHANGED fam
   \/ fam = "rej" /\ x = <<>> /\ \E a \in RejM, b \in RejM : x' = <<<<a>>, <<b>>>> /\ UNCHANGED fam
-  \/ fam = "tai" /\ x = <<>> /\ \E n \in 1..16, k \in 1..3, pat \in 1..3 : x' = <<BigTais(n, k, pat)>> /\ UNCHANGED fam
+  \/ fam = "tai" /\ x = <<>> /\ \E n \in 1..16, k \in 1..3, pat \in 1..9 : x' = <<BigTais(n, k, pat)>> /\ UNCHANGED fam
   \/ fam = "tai" /\ x = <<>> /\ \E ts \in Seqs(TaiSmall, IF Big THEN 3 ELSE 2) : x' = <<ts>> /\ UNCHANGED fam
   \/ fam = "sal" /\ x = <<>> /\ \E p \in 1..3, al \in {0, 1}, n \in 1..16, a \in 1..4, pat \in {1, 2} :
         a <= n /\ x' = <<al, BigTais(n, 1, IF pat = 1 THEN 3 ELSE 1), a, pat, p>> /\ UNCHANGED fam
